@@ -108,8 +108,13 @@ def controlled_run(P, rules, reqs, rng, limit):
     return results, sched.switches, hung
 
 
-def sequential(P, gr, reqs):
+def sequential(P, gr, reqs, limit=None):
+    """every request alone, from cleared caches; with `limit` the caches are limited as in the controlled run (a limit of
+    one entry can make the real code exponentially slower on a recursive grammar: used as a pre-check of the work)"""
     cls, rules = G.build(P, gr)
+    if limit is not None:
+        for r_ in c08.repetitions(P, rules):
+            r_.lparse_cache.max_size = limit
     out = {}
     for q in set(reqs):
         P.ParseCache.clear_caches()
@@ -151,6 +156,9 @@ def run(ctx):
             continue
         cls, rules = G.build(P, gr)
         limit = rng.choice([None, 1, 1, 2])
+        if limit is not None and ec.with_budget(ec.CASE_BUDGET_S, lambda: sequential(P, gr, reqs, limit), None) is None:
+            slow_skipped[0] += 1      # fast with unlimited caches, very slow with evictions: work bound again (C12 / F14)
+            continue
         results, sw, hung = controlled_run(P, rules, reqs, rng, limit)
         switches_total += sw
         lines = G.grammar_wire(gr)
@@ -182,7 +190,7 @@ def run(ctx):
             strings = G.strings_for(rng, gr, 4, maxlen=10)
             reqs = [(rng.choice(["lparse", "parse"]), rng.choice(strings), 0) for _ in range(16)]
             seq = ec.with_budget(ec.CASE_BUDGET_S, lambda: sequential(P, gr, reqs), None)
-            if seq is None:
+            if seq is None or ec.with_budget(ec.CASE_BUDGET_S, lambda: sequential(P, gr, reqs, 1), None) is None:
                 slow_skipped[0] += 1
                 continue
             cls, rules = G.build(P, gr)
